@@ -44,6 +44,24 @@ theorem records_frames (reg : Registry) (fs : List Frame) (rs : List Record)
             · cases h1; rfl
         simp [hf, ih rt h2]
 
+theorem pickLine_innermost (pre post : List Record) (r : Record) (fn : Str) (ln : Nat)
+    (hr : r.hit = some (fn, ln)) (hpost : ∀ q ∈ post, q.hit = none) :
+    pickLine (pre ++ r :: post) = some (fn, ln) := by
+  unfold pickLine
+  rw [List.reverse_append, List.reverse_cons, List.append_assoc, List.findSome?_append]
+  have h1 : post.reverse.findSome? Record.hit = none := by
+    rw [List.findSome?_eq_none_iff]
+    intro q hq
+    exact hpost q (List.mem_reverse.mp hq)
+  rw [h1]
+  simp [hr]
+
+theorem pickLine_none (rs : List Record) (h : ∀ q ∈ rs, q.hit = none) : pickLine rs = none := by
+  unfold pickLine
+  rw [List.findSome?_eq_none_iff]
+  intro q hq
+  exact h q (List.mem_reverse.mp hq)
+
 end Tb
 
 namespace Warn
